@@ -114,8 +114,11 @@ type Job struct {
 	Model     string   `json:"model,omitempty"`
 	Cells     int      `json:"cells,omitempty"`
 	N         int      `json:"n,omitempty"`
-	Batches   [][]Run  `json:"batches,omitempty"` // per producer: run-length list of batch sizes
-	Coords    string   `json:"coords,omitempty"`  // index | wild
+	Batches   [][]Run  `json:"batches,omitempty"`  // per producer: run-length list of batch sizes
+	Share     bool     `json:"share,omitempty"`    // take the renderer value (and, in single-job groups, the model object) from the episode's pool, as a program that keeps them in variables does
+	CloseAt   []int    `json:"close_at,omitempty"` // single producer: call Close() before these batch indices (mid-stream flush)
+	Warm      int      `json:"warm,omitempty"`     // eval family: sequential warm-up evaluations at distinct points before the concurrent phase
+	Coords    string   `json:"coords,omitempty"`   // index | wild
 	CoordSeed uint64   `json:"coord_seed,omitempty"`
 	Fault     Fault    `json:"fault"`
 	EvalMod   uint32   `json:"eval_mod,omitempty"` // park one evaluation in k (0 = never)
